@@ -675,6 +675,42 @@ def rule_d6(F):
     return r
 
 
+SHRINKERS = ("retain", "retain_mut", "remove", "swap_remove", "drain", "truncate", "pop", "extract_if", "dedup", "dedup_by", "dedup_by_key", "clear", "split_off")
+
+
+def shrunk_item_lists(bodies):
+    """calls that take elements out of a `Vec<mir::Item>` / `Vec<lir::Item>`"""
+    out = []
+    for b in bodies:
+        if not b.mir or "::tests::" in b.path:
+            continue
+        for bi, t in mir.calls(b):
+            d = mir.callee_def(t) or ""
+            g = [x for x in (t["f"].get("gargs") or []) if not x.startswith("'")]
+            if d.startswith("std::vec::Vec") and hir.last(d) in SHRINKERS and g and (g[0].endswith("mir::Item") or g[0].endswith("lir::Item")):
+                out.append((b, t.get("line"), hir.last(d), g[0]))
+    return out
+
+
+def rule_d7(F):
+    """Every script constant is evaluated: what the lowering emits reaches code generation - no pass in between takes an item out of
+    the list (`items.retain(..)` in a dead-code stage drops a constant whose initializer "has no effect" by some approximation, and
+    that constant is then evaluated zero times).  Search rule over the whole crate, canary-backed."""
+    r = RuleResult("C14.D7", "no pass removes items between lowering and code generation (every constant that was lowered is evaluated)", floor=0)
+    bodies = [b for b in F.all_bodies() if b.mir]
+    hits = shrunk_item_lists(bodies)
+    r.inst("bodies searched", {"bodies": len(bodies), "shrinking_calls_on_item_lists": len(hits)})
+    for b, ln, what, ty in hits:
+        r.bad(b.path, "%s on a list of items" % what, relfile(b.file), ln or b.line,
+              "%s calls `%s` on a Vec<%s>: items - among them constants, whose initializers are to run exactly once - are removed before code generation" % (hir.last(b.path), what, ty))
+    return r
+
+
+def canary(C):
+    hits = shrunk_item_lists([b for b in C.all_bodies() if b.mir])
+    return [{"rule": "C14.D7", "fired": [b.path for b, _, _, _ in hits], "expect_min": 1, "expect_absent": ["items::count"]}]
+
+
 def rules(ctx):
     F = ctx["F"]
-    return [rule_d1(F), rule_d2(F), rule_d3(F), rule_d4(F), rule_d5(F), rule_d6(F)]
+    return [rule_d1(F), rule_d2(F), rule_d3(F), rule_d4(F), rule_d5(F), rule_d6(F), rule_d7(F)]
